@@ -45,6 +45,10 @@ theorem list_range_map_sum (n : Nat) (g : Nat → K) : ((List.range n).map g).su
 theorem getElem!_eq_getD_of_lt (a : Array K) (i : Nat) (h : i < a.size) : a[i]! = a.getD i 0 := by
   simp [Array.getElem!_eq_getD, Array.getD_eq_getD_getElem?, h]
 
+theorem getElem!_ge (a b : Array K) (h : a.size = b.size) (p : Nat) (hp : b.size ≤ p) : a[p]! = b[p]! := by
+  simp only [Array.getElem!_eq_getD, Array.getD_eq_getD_getElem?]
+  rw [Array.getElem?_eq_none (by omega), Array.getElem?_eq_none hp]
+
 /-- the only element of `range n` satisfying `P` -/
 theorem filter_range_unique (n p : Nat) (P : Nat → Bool) (hp : p < n) (h : ∀ q, q < n → (P q = true ↔ q = p)) :
     (List.range n).filter P = [p] := by
@@ -547,5 +551,233 @@ theorem spTrsv_LN (F : LUFac K) (H : SCLayout F) (unit : Bool) (b : Array K) (hb
   · intro i hi; exact getElem!_eq_getD_of_lt b i (by omega)
 
 end LNmain
+
+/-! ### `trsvUN`: back substitution with `U`, column oriented -/
+
+section UN
+variable {K : Type} [Field K] [Conj K] [Inhabited K]
+
+theorem sum_Ico_shift (g : Nat → K) (f a b : Nat) : ∑ i ∈ Ico (f + a) (f + b), g i = ∑ j ∈ Ico a b, g (f + j) := by
+  rw [Nat.add_comm f a, Nat.add_comm f b, ← Finset.sum_Ico_add]
+
+theorem sum_Ico_block (g : Nat → K) (f w : Nat) : ∑ i ∈ Ico f (f + w), g i = ∑ j ∈ range w, g (f + j) := by
+  rw [Finset.sum_Ico_eq_sum_range, Nat.add_sub_cancel_left]
+
+theorem filter_shift_hit (f n i : Nat) (hi : i < n) :
+    (List.range n).filter (fun a => decide (f + a = f + i)) = [i] := by
+  apply filter_range_unique _ _ _ hi
+  intro q _; simp
+
+theorem filter_shift_miss (f n p : Nat) (h : ∀ i, i < n → f + i ≠ p) :
+    (List.range n).filter (fun a => decide (f + a = p)) = [] := by
+  apply filter_range_none
+  intro q hq; simpa using h q hq
+
+/-- `dusolve`: the first `t` columns (from the last one) of the column-oriented upper solve -/
+def usolveTo (B : Nat → Nat → K) (dv : Nat → K → K) (f w : Nat) (x : Array K) (t : Nat) : Array K :=
+  (List.range t).foldl (fun (x : Array K) t =>
+    let jc := w - 1 - t
+    let xj := dv jc x[f + jc]!
+    let x := x.setIfInBounds (f + jc) xj
+    (List.range jc).foldl (fun (x : Array K) ir => x.setIfInBounds (f + ir) (x[f + ir]! - xj * B ir jc)) x) x
+
+theorem usolveTo_spec (B : Nat → Nat → K) (dv : Nat → K → K) (f w : Nat) (x : Array K) (hb : f + w ≤ x.size) (z : Nat → K)
+    (hz : ∀ jc, jc < w → z jc = dv jc (x[f + jc]! - ∑ j ∈ Ico (jc + 1) w, z j * B jc j)) (t : Nat) (ht : t ≤ w) :
+    (usolveTo B dv f w x t).size = x.size ∧
+    (∀ i, i < w → (usolveTo B dv f w x t)[f + i]! =
+      if w - t ≤ i then z i else x[f + i]! - ∑ j ∈ Ico (w - t) w, z j * B i j) ∧
+    (∀ p, (p < f ∨ f + w ≤ p) → (usolveTo B dv f w x t)[p]! = x[p]!) := by
+  induction t with
+  | zero =>
+    refine ⟨rfl, fun i hi => ?_, fun p _ => rfl⟩
+    simp only [usolveTo, List.range_zero, List.foldl_nil, Nat.sub_zero]
+    rw [if_neg (by omega)]; simp
+  | succ t ih =>
+    obtain ⟨h1, h2, h3⟩ := ih (by omega)
+    have hjc : w - (t + 1) = w - 1 - t := by omega
+    have hjc1 : w - 1 - t + 1 = w - t := by omega
+    have hxj : dv (w - 1 - t) (usolveTo B dv f w x t)[f + (w - 1 - t)]! = z (w - 1 - t) := by
+      rw [h2 _ (by omega), if_neg (by omega), hz _ (by omega), hjc1]
+    generalize hxt : usolveTo B dv f w x t = xt at h1 h2 h3 hxj
+    have hstep : usolveTo B dv f w x (t + 1) =
+        (List.range (w - 1 - t)).foldl (fun (x : Array K) ir =>
+          x.setIfInBounds (f + ir) (x[f + ir]! - z (w - 1 - t) * B ir (w - 1 - t)))
+          (xt.setIfInBounds (f + (w - 1 - t)) (z (w - 1 - t))) := by
+      simp only [usolveTo, List.range_succ, List.foldl_append, List.foldl_cons, List.foldl_nil]
+      simp only [usolveTo] at hxt
+      rw [hxt, hxj]
+    obtain ⟨q1, q2⟩ := foldl_scatter_const (List.range (w - 1 - t)) (fun ir => f + ir)
+      (fun ir => z (w - 1 - t) * B ir (w - 1 - t)) (xt.setIfInBounds (f + (w - 1 - t)) (z (w - 1 - t)))
+    rw [hstep]
+    refine ⟨by rw [q1]; simp [h1], ?_, ?_⟩
+    · intro i hi
+      rw [q2 _ (by simp; omega), getElem!_setIfInBounds, hjc]
+      by_cases hlt : i < w - 1 - t
+      · rw [filter_shift_hit f _ i hlt, if_neg (show ¬ w - 1 - t ≤ i by omega),
+          if_neg (show ¬ (f + (w - 1 - t) = f + i ∧ f + (w - 1 - t) < xt.size) by omega), h2 i hi,
+          if_neg (show ¬ w - t ≤ i by omega)]
+        simp only [List.map_cons, List.map_nil, List.sum_cons, List.sum_nil, add_zero]
+        rw [Finset.sum_eq_sum_Ico_succ_bot (show w - 1 - t < w by omega)]
+        have : w - 1 - t + 1 = w - t := by omega
+        rw [this]; ring
+      · rw [filter_shift_miss f _ _ (by intro a ha; omega), if_pos (show w - 1 - t ≤ i by omega)]
+        simp only [List.map_nil, List.sum_nil, sub_zero]
+        by_cases he : i = w - 1 - t
+        · rw [if_pos (show f + (w - 1 - t) = f + i ∧ f + (w - 1 - t) < xt.size from ⟨by rw [he], by omega⟩), he]
+        · rw [if_neg (show ¬ (f + (w - 1 - t) = f + i ∧ f + (w - 1 - t) < xt.size) by omega), h2 i hi,
+            if_pos (show w - t ≤ i by omega)]
+    · intro p hp
+      by_cases hps : p < x.size
+      · rw [q2 _ (by simp; omega), getElem!_setIfInBounds,
+          if_neg (show ¬ (f + (w - 1 - t) = p ∧ f + (w - 1 - t) < xt.size) by omega), h3 p hp,
+          filter_shift_miss f _ _ (by intro a ha; omega)]
+        simp
+      · have e1 : ((List.range (w - 1 - t)).foldl (fun (x : Array K) ir =>
+            x.setIfInBounds (f + ir) (x[f + ir]! - z (w - 1 - t) * B ir (w - 1 - t)))
+            (xt.setIfInBounds (f + (w - 1 - t)) (z (w - 1 - t)))).size = x.size := by rw [q1]; simp [h1]
+        exact getElem!_ge _ x e1 p (by omega)
+
+/-- the first `t` columns of the update of the rows above a supernode from U's column storage -/
+def uscatTo (U : CSC K) (f : Nat) (x : Array K) (t : Nat) : Array K :=
+  (List.range t).foldl (fun (x : Array K) jj =>
+    let jcol := f + jj
+    (U.col jcol).foldl (fun (x : Array K) (e : Nat × K) => x.setIfInBounds e.1 (x[e.1]! - x[jcol]! * e.2)) x) x
+
+theorem uscatTo_spec (U : CSC K) (f w : Nat) (x : Array K) (hab : ∀ c, c < w → ∀ e ∈ U.col (f + c), e.1 < f)
+    (t : Nat) (ht : t ≤ w) :
+    (uscatTo U f x t).size = x.size ∧ (∀ p, f ≤ p → (uscatTo U f x t)[p]! = x[p]!) ∧
+    (∀ p, p < f → p < x.size → (uscatTo U f x t)[p]! = x[p]! - ∑ jj ∈ range t, x[f + jj]! * U.get p (f + jj)) := by
+  induction t with
+  | zero => simp [uscatTo]
+  | succ t ih =>
+    obtain ⟨h1, h2, h3⟩ := ih (by omega)
+    have hstep : uscatTo U f x (t + 1) = (U.col (f + t)).foldl (fun (x : Array K) (e : Nat × K) =>
+        x.setIfInBounds e.1 (x[e.1]! - x[f + t]! * e.2)) (uscatTo U f x t) := by
+      simp [uscatTo, List.range_succ, List.foldl_append]
+    generalize hxt : uscatTo U f x t = xt at h1 h2 h3 hstep
+    have hne : ∀ e ∈ U.col (f + t), e.1 ≠ f + t := fun e he => by have := hab t (by omega) e he; omega
+    obtain ⟨q1, q2⟩ := foldl_scatter (f + t) (U.col (f + t)) (fun e => e.1) (fun e => e.2) xt hne
+    rw [hstep]
+    refine ⟨by rw [q1, h1], ?_, ?_⟩
+    · intro p hp
+      by_cases hps : p < x.size
+      · rw [q2 p (by omega), h2 p hp]
+        have : (U.col (f + t)).filter (fun a => decide (a.1 = p)) = [] := by
+          apply List.filter_eq_nil_iff.mpr
+          intro e he
+          have := hab t (by omega) e he
+          simp; omega
+        rw [this]; simp
+      · exact getElem!_ge _ x (by rw [q1, h1]) p (by omega)
+    · intro p hp hps
+      rw [q2 p (by omega), h3 p hp hps, h2 (f + t) (by omega), Finset.sum_range_succ, Uget_eq]
+      ring
+
+/-- one supernode of `trsvUN` -/
+def stepUN (F : LUFac K) (unit : Bool) (s : SN) (x : Array K) : Array K :=
+  uscatTo F.U s.fsupc
+    (usolveTo (blk F.L s) (fun jc v => if unit then v else v / blk F.L s jc jc) s.fsupc s.nsupc x s.nsupc) s.nsupc
+
+theorem trsvUN_eq (F : LUFac K) (unit : Bool) (x : Array K) :
+    trsvUN F unit x = (List.range (F.L.nsuper + 1)).foldl (fun x kk => stepUN F unit (snode F.L (F.L.nsuper - kk)) x) x := rfl
+
+/-- state of the column-oriented back substitution after the columns `≥ c` -/
+def InvUN (M : Nat → Nat → K) (b y : Nat → K) (n c : Nat) (x : Array K) : Prop :=
+  x.size = n ∧ (∀ i, c ≤ i → i < n → x[i]! = y i) ∧ (∀ i, i < c → x[i]! = b i - ∑ j ∈ Ico c n, M i j * y j)
+
+theorem stepUN_inv (F : LUFac K) (unit : Bool) (k : Nat) (G : SnOK F k) (M : Nat → Nat → K) (b y : Nat → K)
+    (hM : ∀ i j, i ≠ j → M i j = F.decodeU i j)
+    (hd : ∀ i, M i i = if unit then 1 else F.decodeU i i)
+    (hy : ∀ i, i < F.L.n → y i = (b i - ∑ j ∈ Ico (i + 1) F.L.n, M i j * y j) / M i i)
+    (x : Array K) (hinv : InvUN M b y F.L.n ((snode F.L k).fsupc + (snode F.L k).nsupc) x) :
+    InvUN M b y F.L.n (snode F.L k).fsupc (stepUN F unit (snode F.L k) x) := by
+  obtain ⟨hs, hhi, hlo⟩ := hinv
+  have g_hi := G.hi; have g_le := G.le_n; have g_blk := G.decodeU_blk; have g_above := G.decodeU_above
+  have g_uab := G.uabove
+  generalize hsd : snode F.L k = s at *
+  have hwn : s.fsupc + s.nsupc ≤ F.L.n := by omega
+  -- phase 1
+  have hz : ∀ jc, jc < s.nsupc → y (s.fsupc + jc) =
+      (fun jc v => if unit then v else v / blk F.L s jc jc) jc
+        (x[s.fsupc + jc]! - ∑ j ∈ Ico (jc + 1) s.nsupc, y (s.fsupc + j) * blk F.L s jc j) := by
+    intro jc hjc
+    have hsum : ∑ j ∈ Ico (s.fsupc + jc + 1) F.L.n, M (s.fsupc + jc) j * y j =
+        ∑ j ∈ Ico (jc + 1) s.nsupc, y (s.fsupc + j) * blk F.L s jc j +
+          ∑ j ∈ Ico (s.fsupc + s.nsupc) F.L.n, M (s.fsupc + jc) j * y j := by
+      rw [← Finset.sum_Ico_consecutive _ (show s.fsupc + jc + 1 ≤ s.fsupc + s.nsupc by omega) hwn]
+      congr 1
+      rw [Nat.add_assoc, sum_Ico_shift]
+      apply Finset.sum_congr rfl
+      intro j hj
+      have hj' := Finset.mem_Ico.mp hj
+      rw [hM _ _ (by omega), g_blk jc j hj'.2 (by omega)]; ring
+    rw [hy _ (by omega), hlo _ (by omega), hsum, hd, g_blk jc jc hjc (le_refl _)]
+    cases unit
+    · simp only [Bool.false_eq_true, if_false]; congr 1; ring
+    · simp only [if_true, div_one]; ring
+  obtain ⟨p1, p2, p3⟩ := usolveTo_spec (blk F.L s) (fun jc v => if unit then v else v / blk F.L s jc jc)
+    s.fsupc s.nsupc x (by omega) (fun i => y (s.fsupc + i)) hz s.nsupc (le_refl _)
+  unfold stepUN
+  generalize hx1 : usolveTo (blk F.L s) (fun jc v => if unit then v else v / blk F.L s jc jc) s.fsupc s.nsupc x s.nsupc = x1 at *
+  obtain ⟨q1, q2, q3⟩ := uscatTo_spec F.U s.fsupc s.nsupc x1 g_uab s.nsupc (le_refl _)
+  refine ⟨by rw [q1, p1, hs], ?_, ?_⟩
+  · intro i hi hin
+    rw [q2 i hi]
+    by_cases hiw : i < s.fsupc + s.nsupc
+    · have : i = s.fsupc + (i - s.fsupc) := by omega
+      rw [this, p2 _ (by omega), if_pos (by omega)]
+    · rw [p3 i (Or.inr (by omega))]; exact hhi i (by omega) hin
+  · intro i hi
+    rw [q3 i hi (by omega), p3 i (Or.inl hi), hlo i (by omega),
+      ← Finset.sum_Ico_consecutive _ (show s.fsupc ≤ s.fsupc + s.nsupc by omega) hwn, sum_Ico_block]
+    have : ∑ jj ∈ range s.nsupc, x1[s.fsupc + jj]! * F.U.get i (s.fsupc + jj) =
+        ∑ j ∈ range s.nsupc, M i (s.fsupc + j) * y (s.fsupc + j) := by
+      apply Finset.sum_congr rfl
+      intro j hj
+      have hj' := mem_range.mp hj
+      rw [p2 j hj', if_pos (by omega), hM _ _ (by omega), g_above i j hj' hi]; ring
+    rw [this]; ring
+
+theorem trsvUN_correct (F : LUFac K) (H : SCLayout F) (unit : Bool) (M : Nat → Nat → K) (b y : Nat → K)
+    (hM : ∀ i j, i ≠ j → M i j = F.decodeU i j)
+    (hd : ∀ i, M i i = if unit then 1 else F.decodeU i i)
+    (hy : ∀ i, i < F.L.n → y i = (b i - ∑ j ∈ Ico (i + 1) F.L.n, M i j * y j) / M i i)
+    (x : Array K) (hx : x.size = F.L.n) (hb : ∀ i, i < F.L.n → x[i]! = b i) :
+    ∀ i, i < F.L.n → (trsvUN F unit x)[i]! = y i := by
+  rw [trsvUN_eq]
+  have := fold_down (fun k x => stepUN F unit (snode F.L k) x) (fun c x => InvUN M b y F.L.n c x)
+    (fun k => F.L.xsup[k]!) F.L.nsuper
+    (fun k hk x hinv => by
+      have G := H.sn k (by omega)
+      apply stepUN_inv F unit k G M b y hM hd hy x
+      rw [G.hi]; exact hinv) x
+    (by rw [H.last]; exact ⟨hx, fun i hi hi' => by omega, fun i hi => by simp [hb i hi]⟩)
+  rw [H.first] at this
+  intro i hi
+  exact this.2.1 i (by omega) hi
+
+theorem spTrsv_UN (F : LUFac K) (H : SCLayout F) (unit : Bool) (b : Array K) (hb : b.size = F.L.n) :
+    ∀ i, i < F.L.n → (spTrsv F .U .N unit b)[i]! = (trsvRef F .U .N unit b)[i]! := by
+  intro i hi
+  have hn : (F.L.n == 0) = false := by simp; omega
+  have hl : effLower .U .N = false := rfl
+  simp only [spTrsv, hn, Bool.false_eq_true, if_false, trsvRef, hl]
+  have hUL : (UpLo.U == UpLo.L) = false := rfl
+  have hdiag : ∀ i, trsvMat F .U .N unit i i = if unit then 1 else F.decodeU i i := by
+    intro i; unfold trsvMat
+    cases unit <;> simp [opM, hUL]
+  have hg : ∀ (l : List K) (i : Nat), i < l.length → l.toArray[i]! = l.getD i 0 := by
+    intro l i hi
+    simp [hi, List.getD_eq_getElem?_getD]
+  rw [hg (bwdSub _ _ _ _ _) i (by rw [bwdSub_length]; exact hi)]
+  refine trsvUN_correct F H unit (trsvMat F .U .N unit) (fun i => b.getD i 0)
+    (fun i => (bwdSub (trsvMat F .U .N unit) (fun i => trsvMat F .U .N unit i i) (fun i => b.getD i 0) F.L.n F.L.n).getD i 0)
+    ?_ hdiag ?_ b hb ?_ i hi
+  · intro i j hij; rw [trsvMat_offdiag F _ _ _ i j hij]; rfl
+  · intro i hi
+    exact bwd_rec _ _ _ _ i hi
+  · intro i hi; exact getElem!_eq_getD_of_lt b i (by omega)
+
+end UN
 
 end Slu.Kernels
